@@ -56,15 +56,18 @@ EXHAUSTIVE = {"quick": False, "thorough": False}
 def gen_case(run_seed: int, tier: str, index: int = 0) -> dict:
     st = Streams(run_seed)
     r = st.rng("config")
-    scenario = r.choices(["absent", "foreign", "self", "symlink_in", "symlink_out", "sharded"], [8, 18, 34, 10, 10, 20])[0]
+    scenario = r.choices(["absent", "foreign", "self", "symlink_in", "symlink_out", "sharded", "hardlink"], [8, 18, 34, 10, 10, 20, 6])[0]
     dest = r.choice(["w.data", "w.data", "model.fp16.data", "sub/w.bin", "w"])
     n = r.choice([1, 2, 2, 3, 3, 4, 5, 6])
     thr = r.choice([0, 0, 0, 8, 16])
     specs = []
     ext_files = {"other": {"location": "other.data", "dir": "m", "lead": r.choice([0, 4])}}
+    if r.random() < 0.06:
+        ext_files["other"]["cut"] = r.choice([1, 3, 8, 40])  # the file is shorter than the tensors stored in it claim
     pre_files: dict = {}
     pre_dirs = ["m/sub", "out"]
     pre_symlinks: dict = {}
+    pre_hardlinks: dict = {}
     pre_modes: dict = {}
     dest_key = None
     if scenario == "self":
@@ -78,6 +81,12 @@ def gen_case(run_seed: int, tier: str, index: int = 0) -> dict:
     elif scenario == "symlink_out":
         pre_symlinks["m/" + dest] = os.path.join("..", "..", "out", "actual.bin") if dest.startswith("sub/") else os.path.join("..", "out", "actual.bin")
         ext_files["dest"] = {"location": "actual.bin", "dir": "out", "lead": 0, "always": True, "tail": 11}
+        dest_key = "dest"
+    elif scenario == "hardlink":
+        # the destination is one of two hard links of a data file; the model's tensors read it through the OTHER
+        # name, which keeps the old bytes when the destination is replaced (os.replace makes a new inode)
+        ext_files["dest"] = {"location": "alias.bin", "dir": "m", "lead": 0, "always": True, "tail": 3}
+        pre_hardlinks["m/" + dest] = "m/alias.bin"
         dest_key = "dest"
     elif scenario == "foreign":
         pre_files["m/" + dest] = bytes(r.getrandbits(8) for _ in range(r.choice([0, 1, 33, 200]))).hex()
@@ -168,6 +177,7 @@ def gen_case(run_seed: int, tier: str, index: int = 0) -> dict:
         "pre_files": pre_files,
         "pre_dirs": pre_dirs,
         "pre_symlinks": pre_symlinks,
+        "pre_hardlinks": pre_hardlinks,
         "pre_modes": pre_modes,
         "options": options,
         "entry": entry,
@@ -245,12 +255,24 @@ def exec_once(case: dict, plan: dict | None, ref_new: bytes | None, *, root: str
         old = fsseam.fresh_read(dest_req)
         dest_real = os.path.realpath(dest_req)
         backed = []
+        aliases: set = set()
         for t, payload in zip(world.tensor_objs, world.payloads):
             if isinstance(t, ir.ExternalTensor):
                 try:
                     same = os.path.samefile(t.path, dest_real)
                 except (OSError, ValueError):
                     continue  # a tensor whose path cannot be stat'ed was never readable: nothing to preserve
+                try:
+                    if (t.offset or 0) + (t.length or 0) > os.path.getsize(t.path) and (t.length or 0) > 0:
+                        continue  # its byte range reaches past the end of the file: it never was readable
+                except OSError:
+                    continue
+                if same and os.path.realpath(t.path) != dest_real:
+                    # reads the file through another hard link of the destination: with a base directory the
+                    # containment check (C10) refuses multiply linked files, so it never was readable
+                    aliases.add(id(t))
+                    if t.base_dir:
+                        continue
                 backed.append((t, payload, same))
         state = {"seen_new": False, "viol": None, "boundaries": 0}
 
@@ -385,6 +407,14 @@ def exec_once(case: dict, plan: dict | None, ref_new: bytes | None, *, root: str
                 viol("dest-not-new-after-success", f"save returned but destination differs from the complete new bytes ({None if cur is None else len(cur)} vs {len(ref_new)})")
                 return out
             for t, payload, same in backed:
+                if id(t) in aliases and replaced:
+                    # its file (the other link) still holds the previous bytes: it was not replaced
+                    if not t.valid():
+                        viol("unrelated-tensor-invalidated", f"external tensor {t.name} reads the data through another hard link of the destination; that file was not replaced (it keeps the old bytes) but the tensor was invalidated", key="unrelated-tensor-invalidated|hardlink-alias")
+                        return out
+                    if bytes(_ext_bytes(t)) != payload:
+                        viol("unrelated-tensor-bytes-changed", f"external tensor {t.name} (hard link alias) reads different bytes after the save", key="unrelated-tensor-bytes-changed|hardlink-alias")
+                        return out
                 if not same:
                     if not t.valid():
                         viol("unrelated-tensor-invalidated", f"external tensor {t.name} is not backed by the replaced file but was invalidated")
@@ -448,8 +478,19 @@ def crash_crosscheck(case: dict, n_effects: int, ref_new: bytes | None, rng, sam
     return None
 
 
+def _needs_short(world, case) -> bool:
+    """Does the call have to read a tensor whose byte range reaches past the end of its file?"""
+    if not world.short_source:
+        return False
+    if case["entry"] == "convert":
+        # only the tensors above the threshold are handed to convert_tensors_to_external
+        thr = case["options"].get("size_threshold_bytes", 0)
+        return any(n > thr for n in world.short_sizes)
+    return True
+
+
 def _reference(case: dict):
-    """Fault-free serial save in a sibling world; returns (new destination bytes | None, error)."""
+    """Fault-free serial save in a sibling world; returns (new destination bytes | None, error, input truncated?)."""
     root = workload.new_scratch("c08ref")
     try:
         c = copy.deepcopy(case)
@@ -460,8 +501,8 @@ def _reference(case: dict):
         try:
             _call(world, opts, c["entry"], None)
         except Exception as e:  # noqa: BLE001
-            return None, f"{type(e).__name__}: {e}"
-        return fsseam.fresh_read(os.path.join(world.base, opts["dest"])), None
+            return None, f"{type(e).__name__}: {e}", _needs_short(world, c)
+        return fsseam.fresh_read(os.path.join(world.base, opts["dest"])), None, _needs_short(world, c)
     finally:
         workload.rm_scratch(root)
 
@@ -509,10 +550,22 @@ def run_case(case: dict) -> dict:
     def inc(k, n=1):
         stats[k] = stats.get(k, 0) + n
 
-    ref_new, ref_err = _reference(case)
+    ref_new, ref_err, short_source = _reference(case)
+    if short_source:
+        inc("truncated_source_file")
+        if ref_err is None:
+            # known by construction: an input tensor's byte range reaches past the end of its data file
+            v = {"clause": "save-succeeded-with-truncated-source", "detail": f"an input external tensor's data file is shorter than offset+length, yet a fault-free {case['entry']} returned normally (and produced {None if ref_new is None else len(ref_new)} bytes)"}
+            c = copy.deepcopy(case)
+            c["plan"] = {}
+            res["violation"] = v
+            res["violations"].append(v)
+            res["case"] = c
+            return res
     if ref_err is not None:
         expected_refusal = case["options"].get("max_shard_size_bytes") is not None and "FileExistsError" in ref_err
-        if any(s.get("broken") for s in case["tensors"]):
+        if any(s.get("broken") for s in case["tensors"]) or case["scenario"] == "hardlink" or short_source:
+            # (a tensor reading a multiply linked file is refused by the containment check, see C10)
             # the model holds an unreadable external tensor: every save fails; the failure clauses are what is checked
             inc("unsavable_model_unreadable_input")
         elif not expected_refusal:
